@@ -17,6 +17,7 @@ import (
 	"os"
 	"strings"
 	"sync"
+	"syscall"
 	"time"
 
 	"verifharness/lab/ev"
@@ -74,6 +75,14 @@ func errorTable() []errCase {
 	add("deadline-exceeded", context.DeadlineExceeded, wantTimeout, false)
 	add("arbitrary", errors.New("scripted arbitrary failure"), wantBadGateway, false)
 	add("no-direct", transport.ErrNoDirect, wantBadGateway, true)
+	// other failures of the transport towards the client's node: none of them is "the caller went away"
+	add("net-closed", net.ErrClosed, wantBadGateway, false)
+	add("closed-pipe", io.ErrClosedPipe, wantBadGateway, false)
+	add("unexpected-eof", io.ErrUnexpectedEOF, wantBadGateway, false)
+	add("conn-reset", syscall.ECONNRESET, wantBadGateway, false)
+	add("conn-refused", syscall.ECONNREFUSED, wantBadGateway, false)
+	add("broken-pipe", syscall.EPIPE, wantBadGateway, false)
+	add("not-exist", os.ErrNotExist, wantBadGateway, false)
 	add("eof", io.EOF, wantAnyFailure, false)
 	add("canceled", context.Canceled, wantAnyFailure, false)
 	// raw net.Error timeouts
@@ -85,6 +94,7 @@ func errorTable() []errCase {
 		errCase{"net-timeout", "%w", w1(timeoutErr{}), wantTimeoutOr502, false},
 		errCase{"net-timeout", "%w-operror", w1(&net.OpError{Op: "dial", Net: "udp", Err: timeoutErr{}}), wantTimeoutOr502, false},
 		// a net error that is not a timeout is an ordinary failure
+		errCase{"net-closed", "operror", &net.OpError{Op: "write", Net: "udp", Err: net.ErrClosed}, wantBadGateway, false},
 		errCase{"net-refused", "operror", &net.OpError{Op: "dial", Net: "udp", Err: errors.New("connection refused")}, wantBadGateway, false},
 		errCase{"net-refused", "%w-operror", w1(&net.OpError{Op: "dial", Net: "udp", Err: errors.New("connection refused")}), wantBadGateway, false},
 	)
@@ -276,7 +286,7 @@ type job struct {
 	host  string
 	// unroutable: a server name the gateway cannot map to a tunnel at all (no dial error class is involved)
 	unroutable bool
-	rep   int
+	rep        int
 }
 
 func main() {
@@ -284,7 +294,7 @@ func main() {
 	r.SetExhaustive(true)
 	r.SetMaxSamples(8)
 	tbl := errorTable()
-	r.SetRule(fmt.Sprintf("complete table: %d dial errors (classes not-found, not-connected, lookup-failed, deadline-exceeded, arbitrary, no-direct, each bare / %%w / %%w%%w / errors.Join; raw net.Error timeouts bare, in *net.OpError, os.ErrDeadlineExceeded, %%w-wrapped; non-timeout *net.OpError) plus 4 behaviours of an existing client connection (status ok+echo, no-direct, error, close without status) x 6 protocol paths (HTTP proxy over h1/h2/h3, raw TCP over TLS+yamux and over a QUIC stream, HTTP CONNECT); a case is distinct by (protocol, error class, wrapping)", len(tbl)))
+	r.SetRule(fmt.Sprintf("complete table: %d dial errors (classes not-found, not-connected, lookup-failed, deadline-exceeded, arbitrary, no-direct, net.ErrClosed, closed pipe, unexpected EOF, ECONNRESET, ECONNREFUSED, EPIPE, os.ErrNotExist, each bare / %%w / %%w%%w / errors.Join; raw net.Error timeouts bare, in *net.OpError, os.ErrDeadlineExceeded, %%w-wrapped; non-timeout *net.OpError) plus 4 behaviours of an existing client connection (status ok+echo, no-direct, error, close without status) x 6 protocol paths (HTTP proxy over h1/h2/h3, raw TCP over TLS+yamux and over a QUIC stream, HTTP CONNECT); a case is distinct by (protocol, error class, wrapping)", len(tbl)))
 	r.Assume("context.Canceled and io.EOF are excluded (the caller went away, no status is observable)")
 	r.Assume("%w-wrapped raw net.Error timeouts: the statement does not decide between 'timeout' and 'other failure'; 504 or 502 accepted (tun.IsTimeout uses a type assertion)")
 	r.Assume("for raw TCP the failure code is NO_DIRECT for not-connected/no-direct dial errors and UNKNOWN_ERROR otherwise (tun.SendStatusProto contract); for CONNECT any non-2xx status is a failure status")
